@@ -238,6 +238,11 @@ fn g_strs(a: String, b: String) -> String {
     instr::ran("g_strs");
     twin_strs(&a, &b)
 }
+#[cache(max_memory = "1MB")]
+fn g_strs_mem(a: String, b: String) -> String {
+    instr::ran("g_strs_mem");
+    twin_strs(&a, &b)
+}
 #[cache]
 fn g_ints3(a: u32, b: u32, c: u32) -> u64 {
     instr::ran("g_ints3");
@@ -296,6 +301,11 @@ fn t_unbounded2(a: u32, b: String) -> u64 {
 #[cache(scope = "thread")]
 fn t_strs(a: String, b: String) -> String {
     instr::ran("t_strs");
+    twin_strs(&a, &b)
+}
+#[cache(scope = "thread", max_memory = "1MB")]
+fn t_strs_mem(a: String, b: String) -> String {
+    instr::ran("t_strs_mem");
     twin_strs(&a, &b)
 }
 #[cache(scope = "thread")]
@@ -366,6 +376,11 @@ async fn a_unbounded2(a: u32, b: String) -> u64 {
 #[cache_async]
 async fn a_strs(a: String, b: String) -> String {
     instr::ran("a_strs");
+    twin_strs(&a, &b)
+}
+#[cache_async(max_memory = "1MB")]
+async fn a_strs_mem(a: String, b: String) -> String {
+    instr::ran("a_strs_mem");
     twin_strs(&a, &b)
 }
 #[cache_async]
@@ -496,6 +511,8 @@ struct Fl {
     plain2: F<fn(u32, String) -> u64>,
     unbounded2: F<fn(u32, String) -> u64>,
     strs: F<fn(String, String) -> String>,
+    /// the same signature with `max_memory` configured (keys must not depend on the memory configuration)
+    strs_mem: F<fn(String, String) -> String>,
     ints3: F<fn(u32, u32, u32) -> u64>,
     m: F<fn(&Recv, u32, String) -> u64>,
     m0: F<fn(&Recv) -> u64>,
@@ -797,6 +814,7 @@ fn flavour(kind: Kind) -> Fl {
             plain2: f!("g_plain2", |a, b| g_plain2(a, b)),
             unbounded2: f!("g_unbounded2", |a, b| g_unbounded2(a, b)),
             strs: f!("g_strs", |a, b| g_strs(a, b)),
+            strs_mem: f!("g_strs_mem", |a, b| g_strs_mem(a, b)),
             ints3: f!("g_ints3", |a, b, c| g_ints3(a, b, c)),
             m: f!("g_m", |r, a, b| r.g_m(a, b)),
             m0: f!("g_m0", |r| r.g_m0()),
@@ -814,6 +832,7 @@ fn flavour(kind: Kind) -> Fl {
             plain2: f!("t_plain2", |a, b| t_plain2(a, b)),
             unbounded2: f!("t_unbounded2", |a, b| t_unbounded2(a, b)),
             strs: f!("t_strs", |a, b| t_strs(a, b)),
+            strs_mem: f!("t_strs_mem", |a, b| t_strs_mem(a, b)),
             ints3: f!("t_ints3", |a, b, c| t_ints3(a, b, c)),
             m: f!("t_m", |r, a, b| r.t_m(a, b)),
             m0: f!("t_m0", |r| r.t_m0()),
@@ -831,6 +850,7 @@ fn flavour(kind: Kind) -> Fl {
             plain2: f!("a_plain2", |a, b| block_on(a_plain2(a, b))),
             unbounded2: f!("a_unbounded2", |a, b| block_on(a_unbounded2(a, b))),
             strs: f!("a_strs", |a, b| block_on(a_strs(a, b))),
+            strs_mem: f!("a_strs_mem", |a, b| block_on(a_strs_mem(a, b))),
             ints3: f!("a_ints3", |a, b, c| block_on(a_ints3(a, b, c))),
             m: f!("a_m", |r, a, b| block_on(r.a_m(a, b))),
             m0: f!("a_m0", |r| block_on(r.a_m0())),
@@ -1189,6 +1209,28 @@ fn distinct_tuples(fl: &Fl, ctx: &Ctx) -> Result<(), Fail> {
     .collect();
     let f = fl.strs.call;
     check_pairs(ctx, kind, fl.strs.name, &strs, &|t| f(t.0.clone(), t.1.clone()), &|t| twin_strs(&t.0, &t.1))?;
+
+    // long arguments of equal length that differ in one place only (first / middle / last character, and which of the two
+    // arguments carries the difference), with and without `max_memory`: the key is the whole rendering at every length
+    let mut long: Vec<(String, String)> = Vec::new();
+    for n in [300usize, 1000, 5000] {
+        let base = "k".repeat(n);
+        long.push((base.clone(), s("v")));
+        for pos in [0, n / 2, n - 1] {
+            let mut x = base.clone().into_bytes();
+            x[pos] = b'j';
+            long.push((String::from_utf8(x).unwrap(), s("v")));
+        }
+        long.push((s("v"), base.clone()));
+        let mut y = base.into_bytes();
+        y[n - 1] = b'j';
+        long.push((s("v"), String::from_utf8(y).unwrap()));
+    }
+    let f = fl.strs.call;
+    check_pairs(ctx, kind, fl.strs.name, &long, &|t| f(t.0.clone(), t.1.clone()), &|t| twin_strs(&t.0, &t.1))?;
+    let f = fl.strs_mem.call;
+    check_pairs(ctx, kind, fl.strs_mem.name, &long, &|t| f(t.0.clone(), t.1.clone()), &|t| twin_strs(&t.0, &t.1))?;
+    check_pairs(ctx, kind, fl.strs_mem.name, &strs, &|t| f(t.0.clone(), t.1.clone()), &|t| twin_strs(&t.0, &t.1))?;
 
     // (u32, String)
     let mixed: Vec<(u32, String)> = [
